@@ -23,7 +23,7 @@ DEFAULT_LITERALS = ['None', "'s'", '(3,)', '()', '(1, 2)', '[]', '0', '{}', 'b"x
 
 
 def mkfunc(name, posonly=0, req=0, dflt=0, varargs=False, kwonly=(), kwargs=False, self_first=False, vname='args', kname='kw',
-           lits=None):
+           lits=None, body_locals=False):
     """Build a real function from source text.  *req*/*dflt* count the
     positional-or-keyword parameters; *posonly* positional-only ones come
     first (the last *dflt* positional parameters overall carry defaults);
@@ -49,7 +49,8 @@ def mkfunc(name, posonly=0, req=0, dflt=0, varargs=False, kwonly=(), kwargs=Fals
         out.append('k%d=%s' % (i, lits[(i + 3) % len(lits)] if lits else str(200 + i)) if has_d else 'k%d' % i)
     if kwargs:
         out.append('**' + kname)
-    src = 'def %s(%s):\n    "doc of %s"\n    return None\n' % (name, ', '.join(out), name)
+    body = '    zlocal = 1\n    zother = [zq for zq in ()]\n    del zother\n' if body_locals else ''
+    src = 'def %s(%s):\n    "doc of %s"\n%s    return None\n' % (name, ', '.join(out), name, body)
     ns = {}
     exec(src, ns)
     return ns[name], src.splitlines()[0]
@@ -144,68 +145,74 @@ def run_c18(ctx, rng, job):
     grid = c18_grid()
     nchunks = job['cases'] * job['nshards']
     me = job['shard'] * job['cases'] + ctx.case
-    for idx in range(me, len(grid), nchunks):
-        g = grid[idx]
-        vname, kname = rng.choice([('args', 'kw'), ('rest', 'opts'), ('a', 'k')])
-        # default values of several types (tuples, empty containers, None, strings), not only integers
-        lits = rng.sample(DEFAULT_LITERALS, len(DEFAULT_LITERALS)) if (g['dflt'] or any(g['kwonly'])) else None
-        if lits:
-            ctx.count('grid_points_with_varied_default_values')
-            g = dict(g, lits=lits)
-        # (1) plain function through fromFunction and through an interface class body
-        f, head = mkfunc('meth', vname=vname, kname=kname, **g)
-        f.tagged = ('tag', idx)
-        f.other = idx
-        exp = expected_info(inspect.signature(f))
-        m = fromFunction(f)
-        check_desc(ctx, m, exp, 'fromFunction', head)
-        ctx.ev()
-        if m.queryTaggedValue('tagged') != ('tag', idx) or m.queryTaggedValue('other') != idx or set(m.getTaggedValueTags()) != {'tagged', 'other'}:
-            ctx.violation('function-attributes-not-tagged-values', {'def': head}, abort=False)
-        if m.getName() != 'meth' or m.getDoc() != 'doc of meth':
-            ctx.violation('name-or-doc', {'def': head}, abort=False)
-        I = InterfaceClass('IBody', (Interface,), {'meth': f}, __module__=util.fresh_module())
-        check_desc(ctx, I['meth'], exp, 'interface-body', head)
-        # (2) bound method: leading self removed
-        fs, heads = mkfunc('meth', self_first=True, vname=vname, kname=kname, **g)
-        C = type('C', (object,), {'meth': fs})
-        bound = C().meth
-        expb = expected_info(inspect.signature(bound))
-        check_desc(ctx, fromMethod(bound), expb, 'fromMethod-bound', heads)
-        check_desc(ctx, fromMethod(fs), expb, 'fromMethod-function', heads)
-        check_desc(ctx, fromFunction(fs, imlevel=1), expb, 'fromFunction-imlevel1', heads)
-        # (2b) methods that take their instance through *args (no named self)
-        if g['varargs'] and g['posonly'] == 0 and g['req'] == 0 and g['dflt'] == 0:
-            fi_, headi = mkfunc('meth', vname=vname, kname=kname, **g)
-            Ci = type('Ci', (object,), {'meth': fi_})
-            boundi = Ci().meth
-            expi = expected_info(inspect.signature(boundi))
-            check_desc(ctx, attempt(fromMethod, boundi), expi, 'fromMethod-implicit-self', headi, mech='implicit_self_negative_index')
-            check_desc(ctx, attempt(fromFunction, fi_, imlevel=1), expi, 'fromFunction-imlevel1-implicit-self', headi, mech='implicit_self_negative_index')
-        # (2c) a leading parameter that has a default itself (def meth(self=None, ...)), described as a method
-        if g['posonly'] == 0 and g['req'] == 0:
-            fd, headd = mkfunc('meth', req=0, dflt=g['dflt'] + 1, varargs=g['varargs'], kwonly=g['kwonly'], kwargs=g['kwargs'],
-                               vname=vname, kname=kname, lits=lits)
-            expd = expected_info(drop_first(inspect.signature(fd)))
-            check_desc(ctx, attempt(fromMethod, fd), expd, 'fromMethod-defaulted-self', headd)
-            check_desc(ctx, attempt(fromFunction, fd, imlevel=1), expd, 'fromFunction-imlevel1-defaulted-self', headd)
-        # (3) ABC route
-        A = abc.ABCMeta('Gen%d' % idx, (object,), {'meth': fs})
-        IA = ABCInterfaceClass('IGen%d' % idx, (ABCInterface,), {'abc': A, '__module__': util.fresh_module()})
-        check_desc(ctx, IA['meth'], expb, 'abc', heads)
-        nontrivial = bool(g['kwonly']) or g['posonly'] > 0 or g['varargs'] or g['kwargs'] or g['dflt'] > 0
-        ctx.shape(('c18', g['posonly'], g['req'], g['dflt'], g['varargs'], g['kwonly'], g['kwargs']), nontrivial)
-        if lits:
-            # the rendering is what str()/repr() of the description and the verification error messages show
-            ctx.ev()
-            try:
-                ok = expected_string(exp) in str(m) or expected_string(exp) in repr(m)
-                str(m), repr(m)
-            except Exception as e:
-                ctx.violation('rendering-description-raised', {'def': head, 'error': repr(e)}, abort=False)
-        if ctx.case == 0 and len(ctx.samples) < 3 and g['kwonly'] and g['varargs']:
-            ctx.sample({'def': head, 'info': {k: repr(v) for k, v in norm_info(m.getSignatureInfo()).items()},
-                        'string': m.getSignatureString()})
+    for idx2 in range(2 * me, 2 * len(grid), 2 * nchunks):
+      for variant in (0, 1):
+          idx = idx2 // 2
+          g = grid[idx]
+          vname, kname = rng.choice([('args', 'kw'), ('rest', 'opts'), ('a', 'k')])
+          # default values of several types (tuples, empty containers, None, strings), not only integers
+          lits = rng.sample(DEFAULT_LITERALS, len(DEFAULT_LITERALS)) if (g['dflt'] or any(g['kwonly'])) else None
+          if lits:
+              ctx.count('grid_points_with_varied_default_values')
+              g = dict(g, lits=lits)
+          if variant:
+              # a real body with local variables (they follow the parameters in co_varnames)
+              g = dict(g, body_locals=True)
+              ctx.count('grid_points_with_local_variables')
+          # (1) plain function through fromFunction and through an interface class body
+          f, head = mkfunc('meth', vname=vname, kname=kname, **g)
+          f.tagged = ('tag', idx)
+          f.other = idx
+          exp = expected_info(inspect.signature(f))
+          m = fromFunction(f)
+          check_desc(ctx, m, exp, 'fromFunction', head)
+          ctx.ev()
+          if m.queryTaggedValue('tagged') != ('tag', idx) or m.queryTaggedValue('other') != idx or set(m.getTaggedValueTags()) != {'tagged', 'other'}:
+              ctx.violation('function-attributes-not-tagged-values', {'def': head}, abort=False)
+          if m.getName() != 'meth' or m.getDoc() != 'doc of meth':
+              ctx.violation('name-or-doc', {'def': head}, abort=False)
+          I = InterfaceClass('IBody', (Interface,), {'meth': f}, __module__=util.fresh_module())
+          check_desc(ctx, I['meth'], exp, 'interface-body', head)
+          # (2) bound method: leading self removed
+          fs, heads = mkfunc('meth', self_first=True, vname=vname, kname=kname, **g)
+          C = type('C', (object,), {'meth': fs})
+          bound = C().meth
+          expb = expected_info(inspect.signature(bound))
+          check_desc(ctx, fromMethod(bound), expb, 'fromMethod-bound', heads)
+          check_desc(ctx, fromMethod(fs), expb, 'fromMethod-function', heads)
+          check_desc(ctx, fromFunction(fs, imlevel=1), expb, 'fromFunction-imlevel1', heads)
+          # (2b) methods that take their instance through *args (no named self)
+          if g['varargs'] and g['posonly'] == 0 and g['req'] == 0 and g['dflt'] == 0:
+              fi_, headi = mkfunc('meth', vname=vname, kname=kname, **g)
+              Ci = type('Ci', (object,), {'meth': fi_})
+              boundi = Ci().meth
+              expi = expected_info(inspect.signature(boundi))
+              check_desc(ctx, attempt(fromMethod, boundi), expi, 'fromMethod-implicit-self', headi, mech='implicit_self_negative_index')
+              check_desc(ctx, attempt(fromFunction, fi_, imlevel=1), expi, 'fromFunction-imlevel1-implicit-self', headi, mech='implicit_self_negative_index')
+          # (2c) a leading parameter that has a default itself (def meth(self=None, ...)), described as a method
+          if g['posonly'] == 0 and g['req'] == 0:
+              fd, headd = mkfunc('meth', req=0, dflt=g['dflt'] + 1, varargs=g['varargs'], kwonly=g['kwonly'], kwargs=g['kwargs'],
+                                 vname=vname, kname=kname, lits=lits, body_locals=g.get('body_locals', False))
+              expd = expected_info(drop_first(inspect.signature(fd)))
+              check_desc(ctx, attempt(fromMethod, fd), expd, 'fromMethod-defaulted-self', headd)
+              check_desc(ctx, attempt(fromFunction, fd, imlevel=1), expd, 'fromFunction-imlevel1-defaulted-self', headd)
+          # (3) ABC route
+          A = abc.ABCMeta('Gen%d' % idx, (object,), {'meth': fs})
+          IA = ABCInterfaceClass('IGen%d' % idx, (ABCInterface,), {'abc': A, '__module__': util.fresh_module()})
+          check_desc(ctx, IA['meth'], expb, 'abc', heads)
+          nontrivial = bool(g['kwonly']) or g['posonly'] > 0 or g['varargs'] or g['kwargs'] or g['dflt'] > 0
+          ctx.shape(('c18', g['posonly'], g['req'], g['dflt'], g['varargs'], g['kwonly'], g['kwargs']), nontrivial)
+          if lits:
+              # the rendering is what str()/repr() of the description and the verification error messages show
+              ctx.ev()
+              try:
+                  ok = expected_string(exp) in str(m) or expected_string(exp) in repr(m)
+                  str(m), repr(m)
+              except Exception as e:
+                  ctx.violation('rendering-description-raised', {'def': head, 'error': repr(e)}, abort=False)
+          if ctx.case == 0 and len(ctx.samples) < 3 and g['kwonly'] and g['varargs']:
+              ctx.sample({'def': head, 'info': {k: repr(v) for k, v in norm_info(m.getSignatureInfo()).items()},
+                          'string': m.getSignatureString()})
     if ctx.case == 0:
         # the shipped ABC interfaces: required must be a prefix of positional, without self
         from zope.interface.common import collections as zc
